@@ -198,9 +198,9 @@ func init() {
 		Batches: [2]int{1, 10}, PerBatch: [2]int{112, 64}, Cases: [2]int{60, 300},
 		Rule:        "cases = (schema generated with generate_mock=true: response fields of the kinds/cardinalities the mock generator handles today plus every kind it skips, nested and map fields, several services, field_examples incl. unparsable entries) x RPC x valid request (JSON or binary) x repeated invocations. Oracle: the package incl. *_http_mock.pb.go builds and vets; the generated server backed by NewMock<Service>Server answers 200; the body decodes into the response type and is the documented JSON form of it; a field declaring examples holds one of the parsable ones. Non-trivial = response type with fields; distinct by (request, response body).",
 		Assumptions: append([]string{"while KF-C20-1 is open, schemas whose response types use field shapes the mock generator cannot compile are rejected by the generator filter (counted in classes) and demonstrated by the pinned replay", "validation of mock responses against the OpenAPI response schema is performed by C06's machinery on the same kind of bodies, not repeated here"}, commonAssumptions...)})
-	registerRuntime(&runtimeCheck{ID: "C06", Profile: schema.ProfileContract, Inner: []string{"c06"}, Prefix: "g", Prepare: prepareOpenAPI,
+	registerRuntime(&runtimeCheck{ID: "C06", Profile: schema.ProfileContractRules, Inner: []string{"c06"}, Prefix: "g", Prepare: prepareOpenAPI,
 		Batches: [2]int{1, 10}, PerBatch: [2]int{64, 64}, Cases: [2]int{100, 400},
-		Rule:        "cases = (schema from the contract profile: codec annotations, URL parameters of every kind, headers) x RPC x (request value, response value) x mode {success, handler error -> default response, malformed body -> 400}; the Go client's request body and the Go server's response body are captured on the wire together with the path, query and header values as sent. Oracle: Python jsonschema (Draft 2020-12, $refs resolved in the service's document) against the operation's requestBody / response / parameter schemas, parameters deserialised per the simple/form defaults, plus a walker that reports wire properties no applicable subschema describes; each successful request is sent again under a Content-Type the server does not know (or none) and what it answers under application/json is validated the same way; converse: the JSON form of default request/response messages satisfies their component schemas. Non-trivial = annotated request/response type or an error response; distinct by wire traffic.",
+		Rule:        "cases = (schema from the contract profile: codec annotations, URL parameters of every kind, headers) x RPC x (request value, response value) x mode {success, handler error -> default response, malformed body -> 400, request refused by its buf.validate rules (field- or message-level) -> 400}; the Go client's request body and the Go server's response body are captured on the wire together with the path, query and header values as sent. Oracle: Python jsonschema (Draft 2020-12, $refs resolved in the service's document) against the operation's requestBody / response / parameter schemas, parameters deserialised per the simple/form defaults, plus a walker that reports wire properties no applicable subschema describes; each successful request is sent again under a Content-Type the server does not know (or none) and what it answers under application/json is validated the same way; converse: the JSON form of default request/response messages satisfies their component schemas. Non-trivial = annotated request/response type or an error response; distinct by wire traffic.",
 		Assumptions: append([]string{"format is an annotation in 2020-12 and is not asserted", "the TypeScript client's request bodies are validated by C08's runs against the same schemas, not here"}, commonAssumptions...)})
 	registerRuntime(&runtimeCheck{ID: "C08", Profile: schema.ProfileInterop, Inner: []string{"c08"}, Prefix: "i", Prepare: prepareTS,
 		Batches: [2]int{1, 8}, PerBatch: [2]int{32, 48}, Cases: [2]int{40, 200},
